@@ -1,1 +1,6 @@
 import Ypv.Props.C06
+#print axioms Ypv.C06.exit_zero_iff_clean
+#print axioms Ypv.C06.sync_accounting
+#print axioms Ypv.C06.sync_indices
+#print axioms Ypv.C06.key_report_follows_sync
+#print axioms Ypv.C06.value_report_follows_sync
